@@ -16,6 +16,7 @@ import ArchSim.Model.Asm
 import ArchSim.Model.Sim
 import ArchSim.Model.Views
 import ArchSim.Model.SimViews
+import ArchSim.Model.CacheViews
 
 namespace Driver
 open ArchSim
@@ -298,6 +299,19 @@ def listingTextStr (rows : List SimViews.ListRow) : String :=
   if rows.isEmpty then "." else
   String.intercalate ";" (rows.map fun r => s!"{r.addr},{hex r.addrText},{hex r.instr}")
 
+def statusStr : CacheViews.Status → String
+  | .lru ages => "L" ++ String.intercalate "." (ages.map toString)
+  | .plru bits => "P" ++ String.intercalate "." (bits.map fun b => if b then "1" else "0")
+
+def blockRowStr (b : CacheViews.BlockRow) : String :=
+  String.intercalate "," ([hex b.valid, hex b.dirty, hex b.tag] ++ b.cells.map fun c => s!"{hex c.1}={hex c.2}")
+
+/-- `get_data_cache_entries()` / `get_instruction_cache_entries()` rendered -/
+def cacheTableStr : Option (List CacheViews.SetRow) → String
+  | none => "none"
+  | some rows => String.intercalate ";" (rows.map fun r =>
+      s!"{hex r.index}|{statusStr r.status}|{String.intercalate "/" (r.blocks.map blockRowStr)}")
+
 def dcApply (dc : DC) (victim : Option Nat) (f : {σ : Type} → Cache.PolicyOps σ → Cache.DSys σ → Cache.Out σ) :
     DC × String :=
   match dc with
@@ -561,16 +575,29 @@ def process (st : State) (line : String) : State × String :=
     match st.sim with
     | some (_, p) => (st, listingTextStr (SimViews.listing p.st.imem.prog []))
     | none => (st, "bad-op")
+  | ["sim.dcachetable"] =>
+    match st.sim with
+    | some (_, p) => (st, cacheTableStr (CacheViews.dataCacheTable p.st.mem))
+    | none => (st, "bad-op")
+  | ["sim.icachetable"] =>
+    match st.sim with
+    | some (_, p) => (st, cacheTableStr (CacheViews.instrCacheTable p.st.imem))
+    | none => (st, "bad-op")
+  | ["sim.metrics"] =>
+    match st.sim with
+    | some (_, p) => (st, String.intercalate "|" ((SimViews.metricsLines p.st).map hex))
+    | none => (st, "bad-op")
   | ["sim.dstats"] =>
     match st.sim with
     | some (five, p) =>
-      (st, if five then statsStr true (SimViews.fiveDataStats p) else statsStr false (SimViews.dataStats p.st.mem none))
+      (st, statsStr true (if five then SimViews.fiveDataStats p else SimViews.singleDataStats p.st st.simBefore))
     | none => (st, "bad-op")
   | ["sim.istats"] =>
     match st.sim with
     | some (five, p) =>
       (st, statsStr true (if five then SimViews.fiveInstrStats p else SimViews.singleInstrStats p.st st.simBefore))
     | none => (st, "bad-op")
+  | ["toy.metrics"] => (st, String.intercalate "|" ((SimViews.toyMetricsLines st.toy).map hex))
   | ["toy.regtable"] => (st, toyRegTable st.toy)
   | ["toy.memtable"] => (st, toyMemTable st.toy)
   -- inspection functions are `State → View` in the model: no-ops on the state
